@@ -3,7 +3,10 @@
 package pfcpiface
 
 import (
+	"fmt"
+	"net"
 	"sync"
+	"sync/atomic"
 	"time"
 
 	"github.com/wmnsk/go-pfcp/ie"
@@ -244,4 +247,102 @@ func H_C13_notify() {
 		}
 	}
 	vAssert("nothing-else-delivered", k == len(got))
+}
+
+// vReportSock: the BESS notification socket - each Read returns one scripted
+// 8-byte little-endian F-SEID; afterwards Read fails (the socket is gone).
+type vReportSock struct {
+	vConn
+	reports []uint64
+	pos     int
+}
+
+func (c *vReportSock) Read(b []byte) (int, error) {
+	if c.pos >= len(c.reports) {
+		return 0, net.ErrClosed
+	}
+	f := c.reports[c.pos]
+	c.pos++
+	for k := 0; k < 8; k++ {
+		b[k] = byte(f >> (8 * k))
+	}
+	return 8, nil
+}
+
+var vC13ListenSwitches = 2
+
+// H_C13_listen: the BESS plug-in's real report loop (bess.notifyListen: socket
+// read, F-SEID decoding, its own limiter with the 20 s interval) fed with three
+// reports, the first two for the same session and all within one interval; the
+// consumer drains the report channel concurrently. Under every interleaving of
+// the goroutines involved (scheduling decisions at channel and sync.Map
+// operations), exactly one notification per session reaches the channel.
+func H_C13_listen() {
+	vConcreteClock(1000000) // 1 ms between clock reads: everything happens within one interval
+	f1 := vU64("fseid_a")
+	f2 := vU64("fseid_b")
+	vAssume(f1 != f2)
+	sock := &vReportSock{vConn: *vNewConn(), reports: []uint64{f1, f1, f2}}
+	b := &bess{notifyBessSocket: sock}
+	ch := make(chan uint64, 1)
+	got := map[uint64]int{}
+	total := 0
+	var mu sync.Mutex
+	go func() {
+		for f := range ch {
+			mu.Lock()
+			got[f]++
+			total++
+			mu.Unlock()
+		}
+	}()
+	vPreemptAtChans(vC13ListenSwitches)
+	b.notifyListen(ch) // returns when the socket fails
+	vSettle()
+	mu.Lock()
+	n1, n2, n := got[f1], got[f2], total
+	mu.Unlock()
+	vAssert("listen:one-notification-for-two-reports-of-a-session-within-the-interval", n1 == 1)
+	vAssert("listen:the-other-session-is-notified-once", n2 == 1)
+	vAssert("listen:nothing-else-is-forwarded", n == 2)
+	vCover("listen")
+}
+
+// R_C13_stress_listen: native counterpart, many rounds with real goroutines.
+func R_C13_stress_listen() {
+	deadline := time.Now().Add(40 * time.Second)
+	for round := 0; time.Now().Before(deadline); round++ {
+		f1, f2 := uint64(2*round+1), uint64(2*round+2)
+		sock := &vReportSock{vConn: *vNewConn(), reports: []uint64{f1, f1, f2}}
+		b := &bess{notifyBessSocket: sock}
+		ch := make(chan uint64, 1)
+		var c1, c2, total int64
+		fin := make(chan struct{})
+		go func() {
+			for {
+				select {
+				case f := <-ch:
+					if f == f1 {
+						atomic.AddInt64(&c1, 1)
+					}
+					if f == f2 {
+						atomic.AddInt64(&c2, 1)
+					}
+					atomic.AddInt64(&total, 1)
+				case <-fin:
+					return
+				}
+			}
+		}()
+		b.notifyListen(ch)
+		time.Sleep(300 * time.Microsecond)
+		for w := 0; w < 50 && atomic.LoadInt64(&total) < 2; w++ {
+			time.Sleep(100 * time.Microsecond)
+		}
+		time.Sleep(200 * time.Microsecond)
+		close(fin)
+		if a, bb, t := atomic.LoadInt64(&c1), atomic.LoadInt64(&c2), atomic.LoadInt64(&total); a != 1 || bb != 1 || t != 2 {
+			vStressFail(fmt.Sprintf("round %d: session A notified %d times, session B %d times, %d in total (want 1, 1, 2)", round, a, bb, t))
+		}
+	}
 }
